@@ -401,8 +401,17 @@ func c11ProcessStreams() (names []string, streams [][]rline.Line) {
 	add("two dumps", dumps["dump-plain"].Lines, junk["crlf-lines"].Lines, dumps["dump-unavailable"].Lines, tail)
 	add("preamble lookalikes", junk["lone-sep"].Lines, junk["one-line"].Lines, junk["sep+warn"].Lines, tail[:1], dumps["dump-ends-in-elision"].Lines, tail)
 	add("crlf dump then race", dumps["dump-crlf"].Lines, tail[:2], dumps["race-report"].Lines, tail[2:])
+	// bulk: more text than the 16 KiB line buffer on each side of a dump, so that reads
+	// fill the buffer handed down exactly (only fixed-size deliveries are run on it)
+	var bulk []rline.Line
+	for i := 0; i < 450; i++ {
+		bulk = append(bulk, rline.Line{Text: fmt.Sprintf("log line %04d of a busy program ........................", i), Kind: rline.OTHER})
+	}
+	add(bulkStreamName, bulk, dumps["dump-plain"].Lines, bulk[:400], tail)
 	return
 }
+
+const bulkStreamName = "bulk junk dump bulk junk"
 
 func TestVerifC11Process(t *testing.T) {
 	r := h.Start("C11")
@@ -543,6 +552,25 @@ func TestVerifC11Process(t *testing.T) {
 				o = v.Fingerprint
 			}
 			r.Record(key, true, o+fmt.Sprint(si))
+		}
+		if names[si] == bulkStreamName {
+			var perLine []int
+			for i := range lines {
+				perLine = append(perLine, offsets[i+1]-offsets[i])
+			}
+			try("line-at-a-time", perLine)
+			try("all-at-once", nil)
+			for _, sz := range []int{4096, 8192, 16383, 16384, 16385, 20000, 32768} {
+				var cs []int
+				for o := 0; o < n; o += sz {
+					cs = append(cs, sz)
+				}
+				try(fmt.Sprintf("chunks-of-%d", sz), cs)
+				// the same after a first short piece that leaves a partial line in the buffer
+				try(fmt.Sprintf("17-then-chunks-of-%d", sz), append([]int{17}, cs...))
+				try(fmt.Sprintf("chunks-of-%d-minus-17-after-17", sz), append([]int{17, sz - 17}, cs...))
+			}
+			continue
 		}
 		ones := make([]int, n)
 		for i := range ones {
